@@ -717,6 +717,100 @@ def split_laziness(r, n_cases):
     return evals, viol
 
 
+def _pattern_audio(r, W, nwin):
+    import struct
+    pat, cur = [], 0
+    while len(pat) < nwin:
+        cur = 1 - cur if pat else r.choice([0, 1])
+        pat.extend([cur] * r.randint(1, 9))
+    pat = pat[:nwin]
+    samples = []
+    for on in pat:
+        samples.extend([(8000 if i % 2 == 0 else -8000) if on else 0 for i in range(W)])
+    return pat, struct.pack("<%dh" % len(samples), *samples)
+
+
+def split_lengths(r, n_cases):
+    """C02 observed at "durations of regions from split()/AudioRegion.split()": no region spans more windows than max_dur allows,
+    and with strict_min_dur none spans fewer than min_dur needs -- for bytes, regions, and AudioReader inputs, the latter also
+    with overlapping windows (a window is then still block_dur long, whatever hop_dur is)."""
+    import auditok
+    from auditok.util import AudioReader
+    evals, viol = 0, None
+    for it in range(n_cases):
+        rate = r.choice([10, 100, 1000]); W = r.choice([2, 4, 5, 10]); sw = 2
+        pat, data = _pattern_audio(r, W, r.randint(6, 60))
+        aw = W / rate
+        mn = r.choice([1, 2, 3]); mx = r.choice([3, 4, 5, 8]); ms = r.choice([0, 1, 2])
+        strict = r.random() < 0.5
+        kw = dict(min_dur=mn * aw, max_dur=mx * aw, max_silence=ms * aw, energy_threshold=50, strict_min_dur=strict)
+        hop = r.randint(1, W - 1)
+        for kind in ("bytes", "AudioRegion.split", "AudioReader", "AudioReader with overlapping windows (hop %d of %d samples)" % (hop, W)):
+            try:
+                if kind == "bytes":
+                    regs = list(auditok.split(data, analysis_window=aw, sr=rate, sw=sw, ch=1, **kw))
+                elif kind == "AudioRegion.split":
+                    regs = list(auditok.AudioRegion(data, rate, sw, 1).split(analysis_window=aw, **kw))
+                elif kind == "AudioReader":
+                    regs = list(auditok.split(AudioReader(data, block_dur=aw, sr=rate, sw=sw, ch=1), **kw))
+                else:
+                    regs = list(auditok.split(AudioReader(data, block_dur=aw, hop_dur=hop / rate, sr=rate, sw=sw, ch=1), **kw))
+            except Exception as e:
+                regs = None
+                if viol is None:
+                    viol = {"what": "split() of %s input raised %s: %s" % (kind, type(e).__name__, e)}
+            evals += 1
+            if regs is None or viol is not None:
+                continue
+            for x in regs:
+                nf = -(-len(x.data) // (W * sw))
+                if nf > mx:
+                    viol = {"what": "a region from split() of %s input spans %d windows of %d samples (%.6g s), max_dur=%r allows floor(max_dur/w) = %d" % (kind, nf, W, len(x.data) / sw / rate, kw["max_dur"], mx)}
+                elif strict and nf < mn:
+                    viol = {"what": "a region from split(strict_min_dur=True) of %s input spans %d windows of %d samples, min_dur=%r needs %d" % (kind, nf, W, kw["min_dur"], mn)}
+                if viol:
+                    viol.update({"input": kind, "rate": rate, "window_samples": W, "activity_pattern": pat, "parameters": {k_: repr(v_) for k_, v_ in kw.items()},
+                                 "regions(start, samples)": [[x.start, len(x.data) // sw] for x in regs]})
+                    break
+    return evals, viol
+
+
+def split_interleaved(r, n_cases):
+    """Two split() generators alive at the same time and advanced alternately (same settings, different audio): each call has
+    its own reader and tokenizer, so each yields what it yields when consumed alone (C08: the only state between hand-overs is
+    that call's own; C20: no dependence on other uses)."""
+    import itertools
+    import auditok
+    evals, viol = 0, None
+    for it in range(n_cases):
+        rate = r.choice([10, 100, 1000]); W = r.choice([1, 2, 5]); sw = 2
+        pa, da = _pattern_audio(r, W, r.randint(5, 50))
+        pb, db = _pattern_audio(r, W, r.randint(5, 50))
+        if r.random() < 0.4:
+            pb, db = pa[:len(pa) // 2], da[:(len(pa) // 2) * W * sw]      # a stream and its own prefix
+        aw = W / rate
+        mn = r.choice([1, 2]); mx = r.choice([3, 5, 50]); ms = r.choice([0, 1, 2])
+        if ms >= mx:
+            ms = mx - 1
+        kw = dict(min_dur=mn * aw, max_dur=mx * aw, max_silence=ms * aw, energy_threshold=50, analysis_window=aw, sr=rate, sw=sw, ch=1)
+        enc = lambda regs: [[x.start, len(x.data)] for x in regs]
+        alone = [enc(auditok.split(da, **kw)), enc(auditok.split(db, **kw))]
+        ga, gb = auditok.split(da, **kw), auditok.split(db, **kw)
+        ra, rb = [], []
+        for xa, xb in itertools.zip_longest(ga, gb):
+            if xa is not None:
+                ra.append(xa)
+            if xb is not None:
+                rb.append(xb)
+        evals += 1
+        if [enc(ra), enc(rb)] != alone:
+            viol = {"what": "two split() generators with the same settings, advanced alternately, yield regions (start, bytes) %r and %r; consumed one after the other the same calls yield %r and %r" % (
+                enc(ra)[:8], enc(rb)[:8], alone[0][:8], alone[1][:8]),
+                    "rate": rate, "window_samples": W, "activity_pattern_a": pa, "activity_pattern_b": pb, "parameters": {k_: repr(v_) for k_, v_ in kw.items()}}
+            break
+    return evals, viol
+
+
 def validator_history(r, n_cases):
     """C20: validators give the same verdict for the same window whatever they judged before (windows of different lengths, all selectors)"""
     import struct
@@ -837,6 +931,11 @@ def run(prop, tier):
             for k, x in v.items():
                 violations.setdefault(k, x)
         if prop == "C02":
+            ev_s, v_s = split_lengths(r, 150 if quick else 2000)
+            tot_ev += ev_s
+            res.notes["split_region_length_runs"] = ev_s
+            if v_s:
+                violations.setdefault("C02", v_s)
             g = accept_grid(-1, 4, -1, 7) if quick else accept_grid(-2, 6, -1, 8)
             want = C.model_eval([(6, g)])[0]
             chunks = [g[i:i + 5000] for i in range(0, len(g), 5000)]
@@ -879,6 +978,11 @@ def run(prop, tier):
             res.notes["split_laziness_runs"] = ev_l
             if v_l:
                 violations.setdefault("C08", v_l)
+            ev_i, v_i = split_interleaved(r, 80 if quick else 800)
+            tot_ev += ev_i
+            res.notes["split_interleaved_runs"] = ev_i
+            if v_i:
+                violations.setdefault("C08", v_i)
         if prop == "C20":
             base = streams_upto(4 if quick else 5)
             pairs = [(a, b) for a in base for b in base]
@@ -893,7 +997,10 @@ def run(prop, tier):
             tot_ev += ev_v + ev_b
             res.notes["validator_history_windows"] = ev_v
             res.notes["buffer_reopen_histories"] = ev_b
-            for vv in (v_v, v_b):
+            ev_i, v_i = split_interleaved(r, 80 if quick else 800)
+            tot_ev += ev_i
+            res.notes["split_interleaved_runs"] = ev_i
+            for vv in (v_v, v_b, v_i):
                 if vv:
                     violations.setdefault("C20", vv)
     # cross-check of the extraction on a sample of single cases
